@@ -225,6 +225,10 @@ type c20World struct {
 	ecdhPeer      *ecdh.PrivateKey
 	ecdhPeerE     *ecdh.PrivateKey
 	signMaster    *sm9.SignMasterPrivateKey
+	signPubParsed *sm9.SignMasterPublicKey    // the same master public keys as an application gets them: parsed from their encoding
+	encPubParsed  *sm9.EncryptMasterPublicKey //
+	ncLeaf        *smx509.Certificate         // leaf with DNS names under a pool root that carries name constraints
+	ncRoot        *smx509.Certificate
 	signUser      *sm9.SignPrivateKey
 	encMaster     *sm9.EncryptMasterPrivateKey
 	encUser       *sm9.EncryptPrivateKey
@@ -331,6 +335,15 @@ func newC20World(seed []byte, need map[string]bool, withArtefacts *c20World) (*c
 		if w.encUser, err = w.encMaster.GenerateUserKey(c20UID, 3); err != nil {
 			return nil, err
 		}
+		if der, e := w.signMaster.PublicKey().MarshalASN1(); e == nil {
+			w.signPubParsed, _ = sm9.UnmarshalSignMasterPublicKeyASN1(der)
+		}
+		if der, e := w.encMaster.PublicKey().MarshalASN1(); e == nil {
+			w.encPubParsed, _ = sm9.UnmarshalEncryptMasterPublicKeyASN1(der)
+		}
+		if w.signPubParsed == nil || w.encPubParsed == nil {
+			return nil, fmt.Errorf("sm9 master public key does not parse back")
+		}
 		if withArtefacts == nil {
 			im, _ := sm9.GenerateSignMasterKey(&sim.ScriptReader{Data: scalarFrom(seed, "sm9s")})
 			iu, _ := im.GenerateUserKey(c20UID, 1)
@@ -389,6 +402,37 @@ func newC20World(seed []byte, need map[string]bool, withArtefacts *c20World) (*c
 					return nil, err
 				}
 				w.twins = append(w.twins, tc)
+				if k == 1 {
+					// a root of its own with DNS name constraints (it joins the pool below) and a leaf with matching DNS names
+					ck, err := sm2.NewPrivateKey(scalarFrom(seed, "ncroot"))
+					if err != nil {
+						return nil, err
+					}
+					ct := &x509.Certificate{SerialNumber: big.NewInt(7200), Subject: pkix.Name{Organization: []string{"verif"}, CommonName: "verif constrained root"},
+						NotBefore: c20VerifyTime.AddDate(-1, 0, 0), NotAfter: c20VerifyTime.AddDate(1, 0, 0), BasicConstraintsValid: true, IsCA: true, KeyUsage: x509.KeyUsageCertSign,
+						PermittedDNSDomainsCritical: true, PermittedDNSDomains: []string{"verif.example", "other.example"}, ExcludedDNSDomains: []string{"bad.verif.example"}}
+					cder, err := smx509.CreateCertificate(opReader(seed, -300), ct, ct, &ck.PublicKey, ck)
+					if err != nil {
+						return nil, err
+					}
+					if w.ncRoot, err = smx509.ParseCertificate(cder); err != nil {
+						return nil, err
+					}
+					nk, err := sm2.NewPrivateKey(scalarFrom(seed, "ncleaf"))
+					if err != nil {
+						return nil, err
+					}
+					nt := &x509.Certificate{SerialNumber: big.NewInt(7201), Subject: pkix.Name{Organization: []string{"verif"}, CommonName: "verif constrained leaf"},
+						NotBefore: c20VerifyTime.AddDate(-1, 0, 0), NotAfter: c20VerifyTime.AddDate(1, 0, 0), KeyUsage: x509.KeyUsageDigitalSignature,
+						DNSNames: []string{"a.verif.example", "b.c.verif.example", "www.other.example"}}
+					nder, err := smx509.CreateCertificate(opReader(seed, -301), nt, ct, &nk.PublicKey, ck)
+					if err != nil {
+						return nil, err
+					}
+					if w.ncLeaf, err = smx509.ParseCertificate(nder); err != nil {
+						return nil, err
+					}
+				}
 				if k == 0 {
 					// a leaf under the first twin root whose extended key usages allow only some of the usages an application asks for
 					lk, err := sm2.NewPrivateKey(scalarFrom(seed, "ekuleaf"))
@@ -409,7 +453,10 @@ func newC20World(seed []byte, need map[string]bool, withArtefacts *c20World) (*c
 			}
 		}
 		if withArtefacts != nil {
-			w.ekuLeaf = withArtefacts.ekuLeaf
+			w.ekuLeaf, w.ncLeaf, w.ncRoot = withArtefacts.ekuLeaf, withArtefacts.ncLeaf, withArtefacts.ncRoot
+		}
+		if w.ncRoot != nil {
+			w.roots.AddCert(w.ncRoot)
 		}
 		for _, tc := range w.twins[:3] {
 			w.roots.AddCert(tc)
@@ -558,11 +605,18 @@ func c20Do(w *c20World, kind string, opseed int, msg []byte) (out []byte) {
 		return sig
 	case "sm9.verify":
 		pub := w.signMaster.PublicKey()
+		if opseed&8 != 0 {
+			pub = w.signPubParsed
+		}
 		ok := sm9.VerifyASN1(pub, c20UID, 1, []byte("fixed message"), w.sm9Sig)
 		bad := sm9.VerifyASN1(pub, c20UID, 1, msg, w.sm9Sig)
 		return []byte(fmt.Sprint(ok, bad))
 	case "sm9.wrap":
-		k, c, err := sm9.WrapKey(rd, w.encMaster.PublicKey(), c20UID, 3, 16+len(msg)%32)
+		epub := w.encMaster.PublicKey()
+		if opseed&8 != 0 {
+			epub = w.encPubParsed
+		}
+		k, c, err := sm9.WrapKey(rd, epub, c20UID, 3, 16+len(msg)%32)
 		if err != nil {
 			return errb(err)
 		}
@@ -581,7 +635,11 @@ func c20Do(w *c20World, kind string, opseed int, msg []byte) (out []byte) {
 		case 2:
 			opts = sm9.SM4ECBEncrypterOpts
 		}
-		ct, err := sm9.Encrypt(rd, w.encMaster.PublicKey(), c20UID, 3, msg, opts)
+		epub := w.encMaster.PublicKey()
+		if opseed&8 != 0 {
+			epub = w.encPubParsed
+		}
+		ct, err := sm9.Encrypt(rd, epub, c20UID, 3, msg, opts)
 		if err != nil {
 			return errb(err)
 		}
@@ -659,6 +717,9 @@ func c20Do(w *c20World, kind string, opseed int, msg []byte) (out []byte) {
 		leaf := w.leaf
 		if opseed&3 == 3 && w.ekuLeaf != nil {
 			leaf = w.ekuLeaf
+		}
+		if opseed&7 == 4 && w.ncLeaf != nil {
+			leaf = w.ncLeaf // its chain goes through name-constraint matching
 		}
 		chains, err := leaf.Verify(opts)
 		if opseed&1 != 0 {
